@@ -162,6 +162,15 @@ func (s *vsys) Apply(i int) (sig, desc string) {
 		s.vp.SetContent(o.a, o.b, 'c', nil, tcell.StyleDefault)
 	}
 	nvx, nvy, nw, nh, npx, npy, nlx, nly := s.geom()
+	if o.kind == "Center" && (o.a < 0 || o.b < 0 || o.a >= lx || o.b >= ly) {
+		// "centers the point, if possible": a point outside the content is not centred and the
+		// call moves nothing - whatever the window was before (a Resize may have grown the view
+		// past the content without any scrolling call) it still is
+		if nvx != vx || nvy != vy {
+			return "viewport-center-moved", fmt.Sprintf("after %v (a point outside the %dx%d content): the offset moved from (%d,%d) to (%d,%d)", o, lx, ly, vx, vy, nvx, nvy)
+		}
+		return "", ""
+	}
 	adjX := o.kind == "ScrollLeft" || o.kind == "ScrollRight" || o.kind == "Center" || o.kind == "MakeVisible" || o.kind == "SetSize" || o.kind == "SetContentSize"
 	adjY := o.kind == "ScrollUp" || o.kind == "ScrollDown" || o.kind == "Center" || o.kind == "MakeVisible" || o.kind == "SetSize" || o.kind == "SetContentSize"
 	if adjX {
